@@ -13,6 +13,7 @@ import (
 	"github.com/ory/keto/internal/check"
 	"github.com/ory/keto/internal/driver/config"
 	"github.com/ory/keto/internal/expand"
+	"github.com/ory/keto/internal/namespace"
 	"github.com/ory/keto/internal/relationtuple"
 	"github.com/ory/keto/ketoapi"
 )
@@ -50,6 +51,28 @@ func canonBody(code int, body []byte) string {
 	}
 	b, _ := json.Marshal(v)
 	return fmt.Sprintf("%d:%s", code, b)
+}
+
+// allowedOnly reduces a batch answer to its decisions (an entry in an unknown namespace carries an
+// error text in the batch answer and none in the single answer).
+func allowedOnly(s string) string {
+	i := strings.Index(s, ":")
+	if i < 0 {
+		return s
+	}
+	var v struct {
+		Results []struct {
+			Allowed bool `json:"allowed"`
+		} `json:"results"`
+	}
+	if err := json.Unmarshal([]byte(s[i+1:]), &v); err != nil {
+		return s
+	}
+	out := s[:i]
+	for _, r := range v.Results {
+		out += fmt.Sprintf(",%v", r.Allowed)
+	}
+	return out
 }
 
 func (e *apiEnv) concRequests(r interface{ Intn(int) int }, n int) []concReq {
@@ -199,8 +222,20 @@ func streamConc(t *testing.T, o *Out, race bool) {
 	r := newRand()
 	n := envInt("VERIF_N", 20)
 	var env *apiEnv
+	var tenantA, tenantB *apiEnv
+	var tenantRelease func()
+	tenantUses := 0
+	defer func() {
+		if tenantRelease != nil {
+			tenantRelease()
+		}
+	}()
 	for i := 0; i < n; i++ {
 		if env == nil || race || i%5 == 0 {
+			if env != nil {
+				// release the old environment's file watcher (inotify instances are scarce)
+				_ = env.reg.Config(env.ctx).Set(config.KeyNamespaces, []*namespace.Namespace{})
+			}
 			env = newAPIEnv(t, hcheckOPL)
 		}
 		if err := env.seedState(r); err != nil {
@@ -208,6 +243,31 @@ func streamConc(t *testing.T, o *Out, race bool) {
 		}
 		nreq := 4 + r.Intn(12)
 		reqs := env.concRequests(r, nreq)
+		// every third round: a multi-tenant registry (configuration chosen per request by a
+		// contextualizer); the requests of tenant A and of tenant B run side by side
+		if i%3 == 2 {
+			if tenantA == nil || (race && tenantUses >= 3) {
+				if tenantRelease != nil {
+					tenantRelease()
+				}
+				tenantA, tenantB, tenantRelease = newTenantAPIEnv(t)
+				tenantUses = 0
+			}
+			tenantUses++
+			envA, envB := tenantA, tenantB
+			if err := envA.seedState(r); err != nil {
+				t.Fatal(err)
+			}
+			reqs = append(envA.concRequests(r, 2+nreq/2), envB.concRequests(r, 2+nreq/2)...)
+			r.Shuffle(len(reqs), func(a, b int) {
+				// keep every batch next to its batch-as-singles twin
+				if reqs[a].name == "batch" || reqs[b].name == "batch" || reqs[a].name == "batch-as-singles" || reqs[b].name == "batch-as-singles" {
+					return
+				}
+				reqs[a], reqs[b] = reqs[b], reqs[a]
+			})
+			o.Count("multi-tenant-rounds")
+		}
 		solo := make([]string, len(reqs))
 		if !race {
 			for j, q := range reqs {
@@ -256,7 +316,7 @@ func streamConc(t *testing.T, o *Out, race bool) {
 		}
 		same, diff := 1, ""
 		for j := range reqs {
-			if reqs[j].name == "batch-as-singles" && j > 0 && solo[j] != solo[j-1] {
+			if reqs[j].name == "batch-as-singles" && j > 0 && allowedOnly(solo[j]) != allowedOnly(solo[j-1]) {
 				same = 0
 				if diff == "" {
 					diff = fmt.Sprintf("batch answers %.200s, its entries one by one %.200s", solo[j-1], solo[j])
